@@ -288,6 +288,9 @@ def resolve_owner(f, operand, want_mut=False, depth=0):
         return None
     l = p["local"]
     ds = [d for d in f.defs_of(l) if not f.blocks[d[0]]["cleanup"]]
+    if f.locals[l]["ty"].get("k") == "ref":
+        # stores *through* a reference local (`(*r)[i] = x`) are not definitions of the reference
+        ds = [d for d in ds if not (d[1] != "term" and d[2].get("place", {}).get("proj")) and not (d[1] == "term" and d[2]["dest"]["proj"])]
     if len(ds) == 1 and ds[0][1] == "term" and not p["proj"]:
         # a reference returned by a call that took a reference as first argument borrows from it
         # (index_mut, deref_mut, as_mut_slice, split_at_mut ...): follow to the owner
@@ -296,6 +299,12 @@ def resolve_owner(f, operand, want_mut=False, depth=0):
         if dty.get("k") == "ref" and t["args"] and (not want_mut or dty.get("mut")):
             a0 = core.op_place(t["args"][0])
             if a0 is not None and f.locals[a0["local"]]["ty"].get("k") == "ref":
+                return resolve_owner(f, t["args"][0], want_mut, depth + 1)
+    if len(ds) == 1 and ds[0][1] == "term" and len(p["proj"]) == 1 and p["proj"][0]["k"] == "field" and f.locals[l]["ty"].get("k") == "tuple":
+        # one half of `split_at(_mut)(view, k)`: a view of the same owner
+        t = ds[0][2]
+        if core.strip_generics(core.callee_path(t) or "").rsplit("::", 1)[-1] in ("split_at", "split_at_mut", "split_at_checked", "split_at_mut_checked") and t["args"]:
+            if not want_mut or "mut" in core.strip_generics(core.callee_path(t) or "").rsplit("::", 1)[-1]:
                 return resolve_owner(f, t["args"][0], want_mut, depth + 1)
     if len(ds) != 1 or ds[0][1] == "term":
         return l if not p["proj"] else None
